@@ -162,9 +162,13 @@ fn process_text(id: &str, k: usize, text: &str, tab: u8, vars: &mut VariableMap<
     if look.is_empty() {
         out.line(id, &format!("{} empty", p));
     }
+    let mut carried: Option<String> = None;
     for (j, (st_look, st)) in look.into_iter().zip(exec.into_iter()).enumerate() {
         out.line(id, &format!("{} S{} {}", p, j, stmt(&st_look)));
-        let before = snapshot(vars);
+        let before = match carried.take() {
+            Some(s) => s,
+            None => snapshot(vars),
+        };
         let mut pre: Option<String> = None;
         if let Statement::ExpressionStatement(e) = &st_look {
             // C11 monitor: evaluate on the live table, twice, around deep snapshots
@@ -181,9 +185,6 @@ fn process_text(id: &str, k: usize, text: &str, tab: u8, vars: &mut VariableMap<
             let c2 = result_canon(&e.evaluate(vars));
             if c1 != c2 {
                 out.line(id, &format!("MON eval_not_repeatable {} S{} {} {}", p, j, c1, c2));
-            }
-            if snapshot(vars) != before {
-                out.line(id, &format!("MON eval_mutated {} S{}", p, j));
             }
             pre = Some(format!("{}\u{0}{}", c1, expect_text));
         }
@@ -227,6 +228,7 @@ fn process_text(id: &str, k: usize, text: &str, tab: u8, vars: &mut VariableMap<
         for g in alias_groups(vars) {
             out.line(id, &format!("MON alias {} S{} {}", p, j, g));
         }
+        carried = Some(after);
     }
 }
 
